@@ -120,26 +120,114 @@ func runC12(r *Report) {
 		r.Check(gated, "R2", "gotMetadata/hash-gate", call.Pos(), "metadata is published only when sha1.Sum(t.Info) equals t.Hash", "the call of MetadataComplete in gotMetadata is not dominated by sha1.Sum(t.Info) == t.Hash: forged metadata becomes the torrent")
 		// all blocks present: dominated by the exit edge of a loop whose body returns when a bit is missing
 		allPresent := false
-		for _, g := range guardsOf(call.Block()) {
-			bo, ok := g.Cond.(*ssa.BinOp)
-			if !ok || bo.Op != token.LSS || g.Pol {
+		// (a) a loop that tests infoBitmap.Get(i) for its induction value and leaves the function when a bit is
+		// missing, whose completed exit dominates the publication (classic, range and rotated loop shapes alike)
+		for _, l := range naturalLoops(gm) {
+			if l.Blocks[call.Block()] {
 				continue
 			}
-			if _, _, isCtr := loopCounter(bo.X); !isCtr {
-				continue
-			}
-			// the loop body tests infoBitmap.Get(i)
-			body := g.If.Block().Succs[0]
-			for b := range reachableFrom(body) {
+			tests := false
+			for b := range l.Blocks {
 				for _, in := range b.Instrs {
-					if c, ok := in.(*ssa.Call); ok {
-						if cal := c.Call.StaticCallee(); cal != nil && cal.Name() == "Get" && relPkg(cal) == "bitmap" {
-							if fv, _ := loadedField(c.Call.Args[0]); fv == ib && c.Call.Args[1] == bo.X {
-								allPresent = true
+					c, ok := in.(*ssa.Call)
+					if !ok {
+						continue
+					}
+					cal := c.Call.StaticCallee()
+					if cal == nil || cal.Name() != "Get" || relPkg(cal) != "bitmap" {
+						continue
+					}
+					if fv, _ := loadedField(c.Call.Args[0]); fv != ib {
+						continue
+					}
+					// the argument varies with the loop: a phi of the loop, or derived from one
+					varies := false
+					var walk func(v ssa.Value, d int)
+					walk = func(v ssa.Value, d int) {
+						if d > 4 || v == nil {
+							return
+						}
+						if ph, ok := v.(*ssa.Phi); ok && l.Blocks[ph.Block()] {
+							varies = true
+							return
+						}
+						if in2, ok := v.(ssa.Instruction); ok {
+							for _, op := range in2.Operands(nil) {
+								if op != nil && *op != nil {
+									walk(*op, d+1)
+								}
 							}
 						}
 					}
+					walk(c.Call.Args[1], 0)
+					if !varies {
+						continue
+					}
+					// the missing-bit edge does not reach the publication
+					for _, ref := range *c.Referrers() {
+						var iff *ssa.If
+						pol := true
+						switch x := ref.(type) {
+						case *ssa.If:
+							iff = x
+						case *ssa.UnOp:
+							if x.Op == token.NOT {
+								for _, r2 := range *x.Referrers() {
+									if i2, ok := r2.(*ssa.If); ok {
+										iff, pol = i2, false
+									}
+								}
+							}
+						}
+						if iff == nil {
+							continue
+						}
+						missing := iff.Block().Succs[1]
+						if !pol {
+							missing = iff.Block().Succs[0]
+						}
+						if !l.Blocks[missing] && !reachableFrom(missing)[call.Block()] {
+							tests = true
+						}
+					}
 				}
+			}
+			if !tests {
+				continue
+			}
+			for _, x := range l.cleanExits() {
+				if x.Dominates(call.Block()) {
+					allPresent = true
+				}
+			}
+		}
+		// (b) a dominating whole-bitmap test: infoBitmap.All(n) == true, infoBitmap.Count() == n
+		for _, g := range guardsOf(call.Block()) {
+			g = g.norm()
+			var c *ssa.Call
+			switch x := g.Cond.(type) {
+			case *ssa.Call:
+				if g.Pol {
+					c = x
+				}
+			case *ssa.BinOp:
+				if op, a, bb, ok := cmpFact(g); ok && (op == token.EQL || op == token.GEQ) {
+					if cc, ok := stripIntConv(a).(*ssa.Call); ok {
+						c = cc
+					} else if cc, ok := stripIntConv(bb).(*ssa.Call); ok && op == token.EQL {
+						c = cc
+					}
+				}
+			}
+			if c == nil || len(c.Call.Args) == 0 {
+				continue
+			}
+			cal := c.Call.StaticCallee()
+			if cal == nil || relPkg(cal) != "bitmap" || (cal.Name() != "All" && cal.Name() != "Count") {
+				continue
+			}
+			if fv, _ := loadedFieldAny(c.Call.Args[0]); fv == ib {
+				allPresent = true
 			}
 		}
 		r.Check(allPresent, "R2", "gotMetadata/all-blocks-present", call.Pos(), "the hash is checked only after every block index is present", "the publication is not dominated by the exit of the all-blocks-present loop")
@@ -163,41 +251,60 @@ func runC12(r *Report) {
 	if cp == nil {
 		r.Undecided("R3", "gotMetadata/copy", gm.Pos(), "no copy into t.Info found in gotMetadata")
 	} else {
-		idx, size, data := gm.Params[1], gm.Params[2], gm.Params[3]
-		sizeG := hasGuard(cp.Block(), func(op token.Token, x, y ssa.Value) bool {
-			return op == token.EQL && x == ssa.Value(size) && mentions(y, func(v ssa.Value) bool { fv, _ := loadedField(v); return fv == infoF }, 0)
-		})
-		r.Check(sizeG, "R3", "gotMetadata/size==len(Info)", cp.Pos(), "the copy is dominated by size == len(t.Info)", "the copy into the metadata buffer is not dominated by the announced size matching the buffer")
-		idxG := hasGuard(cp.Block(), func(op token.Token, x, y ssa.Value) bool {
-			return op == token.LSS && stripIntConv(x) == ssa.Value(idx)
-		})
-		r.Check(idxG, "R3", "gotMetadata/index<chunks", cp.Pos(), "the copy is dominated by index < number of blocks (strict)", "the copy is not dominated by a strict upper bound on the block index (index == count slices past the end when the size is not a multiple of 16 KiB)")
-		lenG := false
-		for _, g := range rejectingGuards(p, gm) {
-			m1 := mentions(g.iff.Cond, func(v ssa.Value) bool { return isLenOf(v, data) }, 0)
-			if m1 && g.iff.Block().Dominates(cp.Block()) {
-				lenG = true
-			}
-			// `a && b` rejecting: the second block's condition mentions len(Info)
-			if pb := g.iff.Block(); len(pb.Preds) == 1 {
-				if pi, ok := pb.Preds[0].Instrs[len(pb.Preds[0].Instrs)-1].(*ssa.If); ok && mentions(pi.Cond, func(v ssa.Value) bool { return isLenOf(v, data) }, 0) && pb.Dominates(cp.Block()) == false {
-					lenG = lenG || pb.Preds[0].Dominates(cp.Block())
-				}
-			}
+		// Each fact is required on every path from the entry of gotMetadata to the copy. It can be established by a
+		// branch of gotMetadata itself or inside a validation helper whose error result is tested
+		// (checkMetadataBlock(t, index, size, data)): the subjects index/size/data are followed into the helper's
+		// parameters.
+		subj := []ssa.Value{gm.Params[1], gm.Params[2], gm.Params[3]}
+		mentionsInfo := func(v ssa.Value) bool {
+			return mentions(v, func(v ssa.Value) bool { fv, _ := loadedField(v); return fv == infoF }, 0)
 		}
-		r.Check(lenG, "R3", "gotMetadata/block-length-guard", cp.Pos(), "a rejecting guard on len(data) precedes the copy", "no rejecting guard on the block length precedes the copy into the metadata buffer")
-		dupG := false
-		for _, g := range guardsOf(cp.Block()) {
-			g = g.norm()
-			if c, ok := g.Cond.(*ssa.Call); ok && !g.Pol {
-				if cal := c.Call.StaticCallee(); cal != nil && cal.Name() == "Get" && relPkg(cal) == "bitmap" {
-					if fv, _ := loadedField(c.Call.Args[0]); fv == ib && stripIntConv(c.Call.Args[1]) == ssa.Value(idx) {
-						dupG = true
-					}
+		reqs := []edgeReq{
+			{Name: "size == len(t.Info)", ViaHelper: true, Subj: subj, MatchS: func(sj []ssa.Value, cond ssa.Value, pol bool) bool {
+				op, x, y, ok := cmpFact(Guard{Cond: cond, Pol: pol})
+				if !ok || op != token.EQL || sj[1] == nil {
+					return false
 				}
-			}
+				return (stripIntConv(x) == sj[1] && mentionsInfo(y)) || (stripIntConv(y) == sj[1] && mentionsInfo(x))
+			}},
+			{Name: "index < number of blocks (strict)", ViaHelper: true, Subj: subj, MatchS: func(sj []ssa.Value, cond ssa.Value, pol bool) bool {
+				op, x, y, ok := cmpFact(Guard{Cond: cond, Pol: pol})
+				if !ok || sj[0] == nil {
+					return false
+				}
+				return (op == token.LSS && stripIntConv(x) == sj[0]) || (op == token.GTR && stripIntConv(y) == sj[0])
+			}},
+			{Name: "a branch on len(data)", ViaHelper: true, Subj: subj, MatchS: func(sj []ssa.Value, cond ssa.Value, pol bool) bool {
+				if sj[2] == nil {
+					return false
+				}
+				return mentions(cond, func(v ssa.Value) bool { return isLenOf(v, sj[2]) }, 0)
+			}},
+			{Name: "!infoBitmap.Get(index)", ViaHelper: true, Subj: subj, MatchS: func(sj []ssa.Value, cond ssa.Value, pol bool) bool {
+				c, ok := cond.(*ssa.Call)
+				if !ok || pol || sj[0] == nil {
+					return false
+				}
+				cal := c.Call.StaticCallee()
+				if cal == nil || cal.Name() != "Get" || relPkg(cal) != "bitmap" {
+					return false
+				}
+				fv, _ := loadedField(c.Call.Args[0])
+				return fv == ib && stripIntConv(c.Call.Args[1]) == sj[0]
+			}},
 		}
-		r.Check(dupG, "R3", "gotMetadata/not-already-present", cp.Pos(), "a block already present is not overwritten", "the copy is not dominated by !infoBitmap.Get(index): a later forged duplicate overwrites an honest block")
+		miss, reached := pathsMissingEntry(gm, func(in ssa.Instruction) bool { return in == ssa.Instruction(cp) }, nil, reqs)
+		missing := map[string]bool{}
+		for _, m := range miss {
+			missing[m] = true
+		}
+		if reached == 0 {
+			r.Undecided("R3", "gotMetadata/copy-reachable", cp.Pos(), "the copy into t.Info is not reachable from the entry of gotMetadata")
+		}
+		r.Check(!missing[reqs[0].Name], "R3", "gotMetadata/size==len(Info)", cp.Pos(), "every path to the copy tests size == len(t.Info)", "the copy into the metadata buffer is not preceded on every path by the announced size matching the buffer")
+		r.Check(!missing[reqs[1].Name], "R3", "gotMetadata/index<chunks", cp.Pos(), "every path to the copy tests index < number of blocks (strict)", "the copy is not preceded on every path by a strict upper bound on the block index (index == count slices past the end when the size is not a multiple of 16 KiB)")
+		r.Check(!missing[reqs[2].Name], "R3", "gotMetadata/block-length-guard", cp.Pos(), "every path to the copy branches on len(data)", "no guard on the block length precedes the copy into the metadata buffer")
+		r.Check(!missing[reqs[3].Name], "R3", "gotMetadata/not-already-present", cp.Pos(), "a block already present is not overwritten", "the copy is not preceded on every path by !infoBitmap.Get(index): a later forged duplicate overwrites an honest block")
 	}
 	// allocations: make([]byte, size) / votes under the 1..128MiB check
 	env := &IntEnv{}
